@@ -72,6 +72,50 @@ fn compress_small() {
     } }
 }
 
+/// the same on pseudo-random multisets: duplicates, negative values, zero, equal gaps, values at the ends of the fix_word range,
+/// up to 24 values and 1..=8 classes; the minimal tolerance is found by trying every pairwise difference
+#[test]
+fn compress_random() {
+    std::panic::set_hook(Box::new(|_| {}));
+    let thorough = std::env::var("VERIF_TIER").map(|t| t == "thorough").unwrap_or(false);
+    let mut state: u64 = 0x9E3779B97F4A7C15;
+    let mut next = move || { state ^= state << 13; state ^= state >> 7; state ^= state << 17; state };
+    let mut cases = 0u64;
+    for _ in 0..(if thorough { 200_000 } else { 25_000 }) {
+        let n = 1 + (next() % 24) as usize;
+        let scale: i64 = [1, 1, 2, 7, 1 << 10, 1 << 20, (1 << 26) + 3][(next() % 7) as usize];
+        let spread = 1 + (next() % 40) as i64;
+        let mut vals: Vec<i32> = (0..n).map(|_| { let v = ((next() % (2 * spread as u64 + 1)) as i64 - spread) * scale; v.clamp(i32::MIN as i64 + 1, i32::MAX as i64) as i32 }).collect();
+        if next() % 5 == 0 { vals.push(i32::MAX); } if next() % 5 == 0 { vals.push(i32::MIN + 1); } if next() % 3 == 0 { vals.push(0); }
+        let max_size = 1 + (next() % 8) as u8;
+        let mut sorted = vals.clone(); sorted.sort(); sorted.dedup();
+        let input: Vec<FixWord> = vals.iter().map(|v| FixWord(*v)).collect();
+        let res = std::panic::catch_unwind(move || compress(&input, max_size)).ok();
+        cases += 1;
+        let Some((table, index)) = res else { println!("WITNESS {{\"fn\": \"compress\", \"values\": {:?}, \"max_size\": {max_size}, \"observed\": \"panic\"}}", vals); return; };
+        let mut why: Option<String> = None;
+        if table.is_empty() || table[0] != FixWord::ZERO { why = Some("table[0] is not 0".into()); }
+        if table.len() > max_size as usize + 1 { why = Some(format!("{} classes, limit {}", table.len() - 1, max_size)); }
+        // minimal tolerance: 0 or one of the pairwise differences (the number of classes only changes there)
+        let mut cands: Vec<i64> = vec![0];
+        for i in 0..sorted.len() { for j in i + 1..sorted.len() { cands.push(sorted[j] as i64 - sorted[i] as i64); } }
+        cands.sort(); cands.dedup();
+        let best = *cands.iter().find(|d| classes_needed(&sorted, **d) <= max_size as usize).unwrap();
+        for v in &sorted {
+            match index.get(&FixWord(*v)) {
+                None => { why = Some(format!("value {v} has no class")); }
+                Some(i) => {
+                    let i = i.get() as usize;
+                    if i >= table.len() { why = Some(format!("index {i} out of table")); }
+                    else { let rep = table[i].0 as i64; if ((*v as i64) - rep).abs() > (best + 1) / 2 { why = Some(format!("value {v} is {} from its representative {rep}; minimal tolerance is {best}", ((*v as i64) - rep).abs())); } }
+                }
+            }
+        }
+        if let Some(w) = why { println!("WITNESS {{\"fn\": \"compress\", \"values\": {:?}, \"max_size\": {max_size}, \"observed\": \"{w}\", \"expected\": \"<= max_size classes using the smallest tolerance, each value within half of it of its representative (PLtoTF.2014.75-80)\"}}", vals); return; }
+    }
+    println!("STATS {{\"fn\": \"compress (random multisets)\", \"cases\": {cases}}}");
+}
+
 /// fix_word -> decimal -> fix_word through the real PL reader
 #[test]
 fn fixword_print_parse() {
